@@ -23,17 +23,84 @@ RULE = ('generated tagged BAMs (1-3 contigs, 1-4 cells, read-1/read-2/single-end
 ASSUMPTIONS = ['max_fragment_size >= distance between a read and its DS site (the fetch margin must cover it)',
                'get_binned_counts applies its documented default filter (read 1, not duplicate, not qc-fail, DS present) without MAPQ / mp']
 MIN_NONTRIVIAL = {'quick': 150, 'thorough': 8000}
-REQUIRED_MONITORS = ['ret:obtain_counts', 'ret:get_binned_counts', 'oracle:matrix_cells_compared', 'splits:compared', 'lib:non_proper_pairs',
+REQUIRED_MONITORS = ['pipeline:count_runs', 'ret:obtain_counts', 'ret:get_binned_counts', 'oracle:matrix_cells_compared', 'splits:compared', 'lib:non_proper_pairs',
                      'lib:sites_on_job_boundary']
 SHARD_TIMEOUT = {'quick': 900, 'thorough': 5400}
 
 
 def gen_cases(tier, seed):
     n = 48 if tier == 'quick' else 1600
-    return [{'i': i, 'seed': seed} for i in range(n)]
+    cases = [{'i': i, 'seed': seed} for i in range(n)]
+    # end to end: a simulated library tagged by the real tagger, then counted under several job splits; one count per true molecule
+    for j in range(6 if tier == 'quick' else 120):
+        cases.append({'kind': 'pipeline', 'j': j, 'seed': seed})
+    return cases
+
+
+def run_pipeline_case(case):
+    from singlecellmultiomics.bamProcessing import bamBinCounts as bbc
+    from vlib import tagger as T
+    acc = Acc()
+    r = rng(case['seed'], 'C12', 'pipeline', case['j'])
+    method = r.choice(['nla', 'chic'])
+    bin_size = r.choice([200, 500, 1000])
+    contigs = [('chr1', r.choice([6000, 11000])), ('chr2', 4000)][:r.randint(1, 2)]
+    # sites on bin / job boundaries
+    sites = []
+    for name, ln in contigs:
+        for _ in range(r.randint(3, 8)):
+            k = r.randint(2, ln // bin_size - 2)
+            sites.append((name, k * bin_size + r.choice([-1, 0, 0, 1, r.randint(2, bin_size - 2)])))
+    gen, recs, truths = F.simulate_library(r, method=method, contigs=contigs, n_cells=r.randint(1, 3), n_sites=0, umis_per_site=(1, 3), copies=(1, 3),
+                                           case_id=500 + case['j'], p_clip=0.2, p_invalid=0.05 if method == 'nla' else 0.0, p_umi_neighbour=0.0, umi_len=4,
+                                           site_positions=sites, frag_range=(60, 280), n_unmapped=r.choice([0, 2]))
+    if not truths:
+        return acc
+    expect = Counter()
+    lens = dict(contigs)
+    for key in set(t['key'] for t in truths.values() if t.get('key') and t['valid']):
+        sample, contig, site, reverse, umi = key
+        b0 = (site // bin_size) * bin_size
+        expect[(contig, b0, min(b0 + bin_size, lens[contig]), sample)] += 1
+    with Scratch('c12p') as dd:
+        bam = write_bam(os.path.join(dd, 'in.bam'), gen.refs, recs)
+        out = os.path.join(dd, 'tagged.bam')
+        exc, txt = T.run_cli([bam, '-o', out, '-method', method, '-umi_hamming_distance', '0'])
+        if exc is not None:
+            acc.violate('pipeline-tagger-raised', f'tagger raised {exc!r}', {'method': method})
+            return acc
+        first = None
+        for bpj in sorted(set([1, 2, 3, 7, 100])):
+            threads = r.choice([1, 2, 4])
+            cmds = list(bbc.generate_commands(out, bin_size=bin_size, bins_per_job=bpj, min_mq=20, max_fragment_size=1000, key_tags=None, dedup=True, kwargs={}))
+            r.shuffle(cmds)
+            with contextlib.redirect_stdout(io.StringIO()):
+                res = bbc.obtain_counts(cmds, reference=None, live_update=False, threads=threads)
+            acc.evals += 1
+            acc.count('ret:obtain_counts')
+            acc.count('pipeline:count_runs')
+            got = Counter()
+            for bin_id, sd in res.items():
+                for sample, n in sd.items():
+                    if n:
+                        got[tuple(bin_id) + (sample,)] += n
+            acc.count('oracle:matrix_cells_compared', len(set(got) | set(expect)))
+            if got != expect:
+                miss, extra = expect - got, got - expect
+                acc.violate('pipeline-molecule-count-differs', f'{method} bin {bin_size} bins_per_job {bpj}: matrix of the tagged BAM differs from the number of true molecules: '
+                                                               f'missing {list(miss.items())[:3]} extra {list(extra.items())[:3]}', {'method': method, 'bin_size': bin_size, 'bins_per_job': bpj})
+            if first is not None and got != first:
+                acc.violate('matrix-depends-on-job-split', f'pipeline: bins_per_job={bpj} differs from bins_per_job=1', {'method': method})
+            first = first if first is not None else got
+            acc.count('splits:compared')
+            acc.sigs.add(f"pipeline/{case['j']}/{bpj}/{threads}")
+        acc.sample = {'pipeline': {'method': method, 'bin_size': bin_size, 'true_molecules': sum(expect.values()), 'fragments': len(truths)}}
+    return acc
 
 
 def run_case(case):
+    if case.get('kind') == 'pipeline':
+        return run_pipeline_case(case)
     import pysam
     from singlecellmultiomics.bamProcessing import bamBinCounts as bbc
     acc = Acc()
